@@ -512,7 +512,7 @@ def make_jobs(ctx, only=None):
     big = [6, 7, 8, 9, 15, 16, 17, 31, 32, 33, 63, 64, 65, 100, 127, 128, 129, 130]
     amt = [1, 2, 3, 4, 5, 6, 7, 8, 9, 10]
     rng = ctx.sub_rng('bigpairs')
-    npairs, nval, nun = (14, 4, 6) if tier == 'quick' else (90, 8, 24)
+    npairs, nval, nun = (12, 3, 4) if tier == 'quick' else (90, 8, 24)
     pairs = [(130, 130), (130, 8), (1, 130), (64, 65), (33, 7), (128, 9)]
     while len(pairs) < npairs:
         c = rng.random()
@@ -532,14 +532,15 @@ def make_jobs(ctx, only=None):
         # amounts around the data width (saturation boundary)
         B += [v for v in (wa - 1, wa, wa + 1, wa // 2) if 0 <= v < (1 << wb) and v not in B]
         pts = [(x, y) for x in A for y in B]
-        if len(pts) > (40 if tier == 'quick' else 120):
-            keep = [(x, y) for x in A[:4] for y in B[:4]] + [(A[i % len(A)], y) for i, y in enumerate(B)]
+        cap = (16 if max(wa, wb) > 100 else 28) if tier == 'quick' else 120
+        if len(pts) > cap:
+            keep = [(x, y) for x in A[:3] for y in B[:3]] + [(A[i % len(A)], y) for i, y in enumerate(B)]
             rest = [p for p in pts if p not in keep]
             r.shuffle(rest)
-            pts = keep + rest[:(40 if tier == 'quick' else 120) - len(keep)]
+            pts = (keep + rest)[:cap]
             pts = list(dict.fromkeys(pts))
         jobs.append(Job('binary', binary_instances(wa, wb), wa, wb, pts, False))
-    uw = [6, 8, 17, 32, 33, 64, 65, 127, 128, 130] if tier == 'quick' else big + [5 + i * 7 for i in range(1, 17)]
+    uw = [6, 8, 17, 33, 64, 65, 128, 130] if tier == 'quick' else big + [5 + i * 7 for i in range(1, 17)]
     for wa in uw:
         r = ctx.sub_rng('bigun', wa)
         pts = [(v, None) for v in boundary(r, wa, nun)]
@@ -659,13 +660,35 @@ def run(ctx, only=None, only_inst=None):
     if only_inst is not None:
         for j in jobs:
             j.insts = [i for i in j.insts if i.name == only_inst[0] and i.src == only_inst[1]] or j.insts
-    exprs, spans = [], []
+    exprs, spans, costs = [], [], []
     for j in jobs:
         e = j.coq_exprs()
         spans.append((len(exprs), len(exprs) + len(e)))
         exprs.extend(e)
+        # select_spec/testbit cost grows quadratically with the width; barrel stages with len(b)
+        wmax = max(j.wa, j.wb or 0, 8) / 8.0
+        for inst in j.insts:
+            c = len(j.points) * wmax * wmax
+            if inst.group == 'shift' and j.wb:
+                c *= 1 + j.wb / 4.0
+            costs.append(c + 5)
+    # pack consecutive expressions into bins of similar cost: one Eval (a list of rows) per bin
+    target = max(sum(costs) / 40.0, 1.0)
+    bins, cur, acc = [], [], 0.0
+    for i, c in enumerate(costs):
+        cur.append(i)
+        acc += c
+        if acc >= target:
+            bins.append(cur)
+            cur, acc = [], 0.0
+    if cur:
+        bins.append(cur)
     try:
-        out = ctx.coq_eval(exprs, IMPORTS, tag='c06', shard=(150 if ctx.tier == 'quick' else 250), jobs=12)
+        res = ctx.coq_eval(['[%s]' % '; '.join(exprs[i] for i in b) for b in bins], IMPORTS, tag='c06',
+                           shard=1, jobs=14)
+        out = [row for r in res for row in r]
+        if len(out) != len(exprs):
+            raise RuntimeError('model returned %d rows for %d expressions' % (len(out), len(exprs)))
     except Exception as e:   # the model no longer evaluates: the search still runs
         out = None
         ctx.model_mismatch('Front model could not be evaluated: %s' % str(e)[-800:], {})
